@@ -4,7 +4,10 @@
    conflict predicates and serialisers: what is fixed is the command's own control flow, taken from the source
    (Gen/MergeAppFacts.v is regenerated from nbmergeapp.py / mergedriver.py / nbformat.write on every run). *)
 From Coq Require Import List NArith Bool.
-From NB Require Import Gen.MergeAppFacts Sys.MergeApp Sys.MergeAppProofs.
+From NB Require Import Gen.MergeAppFacts.
+From NB Require Import Sys.MergeApp.
+From NB Require Import Sys.MergeAppProofs.
+From NB Require Import Sys.MergeAppInst.   (* the instance the correspondence check evaluates + non-vacuity examples *)
 Import ListNotations.
 
 (* Exit status 0 -- under any fault, from any file system -- implies: either both sides deleted the file (then the
